@@ -150,6 +150,37 @@ ops_src.CALLS["JSXTag_appendC20b"] = _append
 ops_src.CALLS["JSXTag_copyC20b"] = lambda a: _jsxmod().JSXTag.__copy__(a[0])
 
 
+def _visitor(md: list):
+    """the function defined inside `JSXTag.tagify`, closed over the list `md`: rebuilt from its code object (the one nested
+    code object among the constants of `tagify`), with a fresh cell for its one free variable"""
+    import types
+    m = _jsxmod()
+    codes = [c for c in m.JSXTag.tagify.__code__.co_consts if isinstance(c, types.CodeType)]
+    if len(codes) != 1 or len(codes[0].co_freevars) != 1:
+        raise LookupError("visitor of JSXTag.tagify")
+    return types.FunctionType(codes[0], vars(m), codes[0].co_name, None, (types.CellType(md),))
+
+
+def _call_visitor(a):
+    if type(a[0]) is not list:
+        raise LookupError("visitor state")
+    md = a[0]
+    r = _visitor(md)(a[1])
+    return (r, md)
+
+
+def _call_walk(a):
+    if type(a[1]) is not list:
+        raise LookupError("visitor state")
+    md = a[1]
+    r = _jsxmod()._walk_attrs_and_children(a[0], _visitor(md))
+    return (r, md)
+
+
+ops_src.CALLS["JSXTag_tagify_visitorC20b"] = _call_visitor
+ops_src.CALLS["walk_attrs_and_childrenC20b"] = _call_walk
+
+
 @op("srcc20b")
 def _srcc20b(t: Toks) -> str:
     assert t.next() == "["        # the upper-casing table: needed by the Lean side only
